@@ -16,6 +16,7 @@ type frameTarget struct {
 	all, whole bool
 	key        string
 	ref        Term
+	since      *Term
 }
 
 // extra VC fields live here to keep state.go small
@@ -263,15 +264,14 @@ func (w *World) verifyFunction(fn *ssa.Function, con *Contract) (vc *VC) {
 		// frame targets
 		if con.ModSet {
 			for _, m := range con.Modifies {
-				tg, err := env.modTarget(m)
+				tgs, err := env.modTargets(m)
 				if err != nil {
 					vc.failed = fmt.Errorf("%s: modifies %q: %v", con.File, m, err)
 					return vc
 				}
-				if tg.key == "" && !tg.all {
-					continue
+				for _, tg := range tgs {
+					vc.frameTargets = append(vc.frameTargets, frameTarget{all: tg.all, whole: tg.whole, key: tg.key, ref: tg.ref, since: tg.since})
 				}
-				vc.frameTargets = append(vc.frameTargets, frameTarget{all: tg.all, whole: tg.whole, key: tg.key, ref: tg.ref})
 			}
 			vc.frameTags = con.Tags
 			if tags, ok := con.Opts["frametags"]; ok {
@@ -347,6 +347,22 @@ func (f *Frame) localLookup(st *State) func(name string) (EV, bool) {
 				return EV{a, a.Typ}, true
 			}
 			return EV{f.value(v, st), v.Type()}, true
+		}
+		// SSA register names (used by generated invariants)
+		if len(name) > 1 && name[0] == 't' && name[1] >= '0' && name[1] <= '9' {
+			for v, val := range f.vals {
+				if v.Name() == name {
+					if a, isA := val.(*Addr); isA {
+						return EV{a, a.Typ}, true
+					}
+					return EV{f.value(v, st), v.Type()}, true
+				}
+			}
+		}
+		for i, p := range f.fn.Params {
+			if p.Name() == name && i < len(f.args) {
+				return EV{f.args[i], p.Type()}, true
+			}
 		}
 		return EV{}, false
 	}
